@@ -1086,6 +1086,8 @@ func main() {
 	// package-level scratch shared between bitmaps is reported whether or not it collides
 	r.CasesProc("dense/race", r.N(16, 200), ev.Opt{Bin: "race", Procs: 2, Workers: 8, AlwaysLog: true}, denseCase)
 	r.CasesProc("threshold/checkptr", r.N(8, 100), ev.Opt{Bin: "race", Procs: 4}, thresholdCase)
+	r.CasesProc("mix/race-parallel", r.N(96, 3000), ev.Opt{Bin: "race", Procs: 2, Workers: 8, AlwaysLog: true, HangViolation: true, MaxCaseSeconds: 120}, mixCase)
+	r.CasesProc("churn/race-parallel", r.N(96, 3000), ev.Opt{Bin: "race", Procs: 2, Workers: 8, AlwaysLog: true, HangViolation: true, MaxCaseSeconds: 120}, churnCase)
 	r.Require("enumerations", 1000)
 	r.Require("bucket_reached_4097", 10)
 	r.Require("bucket_became_empty", 100)
